@@ -2776,4 +2776,832 @@ theorem finalize_ne {st : St} (hi : NEInv st) : noEmptyBlocks (finalize st).kids
     (ne_addNonEmpty (hi .httpPost) (hi .postClient))) (hi .stage)) (hi .procInj)) (hi .dns)) (hi .httpBeacon)
 
 
+/-! ### Part 7: every token of the generated tree lexes back to itself as one token -/
+
+section Lex
+open C12 (dq sq bsl Txt scanBody pre valueToStringStr valueToString)
+
+theorem scanStr_cons (esc : Bool) (c : Nat) (cs : C10.Text) :
+    C10.scanStr esc (c :: cs) =
+      if (c == 34 && !esc) = true then some ([34], cs)
+      else (C10.scanStr (c == 92 && !esc) cs).map fun p => (c :: p.1, p.2) := by
+  rw [C10.scanStr]
+  split
+  · rfl
+  · cases C10.scanStr (c == 92 && !esc) cs <;> rfl
+
+theorem scanBody_cons (c : UInt8) (cs : Txt) (even : Bool) :
+    scanBody (c :: cs) even =
+      if c = dq ∧ even = true then some ([c], cs)
+      else (scanBody cs (if c = bsl then !even else true)).map fun p => (c :: p.1, p.2) := by
+  rw [scanBody]
+
+theorem toNat_eq_34 (c : UInt8) : (c.toNat == 34) = decide (c = dq) := by
+  rw [Bool.eq_iff_iff]; simp only [beq_iff_eq, decide_eq_true_eq]
+  exact ⟨fun h => UInt8.toNat_inj.mp (h.trans (by decide : (34 : Nat) = dq.toNat)), fun h => h ▸ (by decide)⟩
+
+theorem toNat_eq_92 (c : UInt8) : (c.toNat == 92) = decide (c = bsl) := by
+  rw [Bool.eq_iff_iff]; simp only [beq_iff_eq, decide_eq_true_eq]
+  exact ⟨fun h => UInt8.toNat_inj.mp (h.trans (by decide : (92 : Nat) = bsl.toNat)), fun h => h ▸ (by decide)⟩
+
+/-- C10's STRING scanner on latin-1 text is C12's (`esc` = an odd backslash run precedes = `!even`) -/
+theorem scanStr_toText (cs : Bytes) : ∀ esc : Bool,
+    C10.scanStr esc (toText cs) = (scanBody cs (!esc)).map fun p => (toText p.1, toText p.2) := by
+  induction cs with
+  | nil => intro esc; simp [toText, C10.scanStr, scanBody]
+  | cons c cs ih =>
+    intro esc
+    have hcons : toText (c :: cs) = c.toNat :: toText cs := rfl
+    rw [hcons, scanStr_cons, scanBody_cons, ih, toNat_eq_34, toNat_eq_92]
+    by_cases h1 : c = dq
+    · subst h1
+      have hb : ¬ dq = bsl := by decide
+      cases esc
+      · simp [toText]; decide
+      · simp only [decide_true, Bool.not_true, Bool.and_false, Bool.false_eq_true, if_false, hb, decide_false,
+          Bool.false_and, Bool.not_false, and_false, Option.map_map]
+        cases scanBody cs true <;> simp [toText]
+    · by_cases h2 : c = bsl
+      · subst h2
+        cases esc
+        · simp only [h1, decide_false, Bool.false_and, Bool.false_eq_true, if_false, decide_true, Bool.not_false,
+            Bool.and_true, Bool.not_true, false_and, if_true, Option.map_map]
+          cases scanBody cs false <;> simp [toText]
+        · simp only [h1, decide_false, Bool.false_and, Bool.false_eq_true, if_false, decide_true, Bool.not_true,
+            Bool.and_false, Bool.not_false, false_and, if_true, Option.map_map]
+          cases scanBody cs true <;> simp [toText]
+      · cases esc
+        · simp only [h1, h2, decide_false, Bool.false_and, Bool.false_eq_true, if_false, Bool.not_false, false_and,
+            Option.map_map]
+          cases scanBody cs true <;> simp [toText]
+        · simp only [h1, h2, decide_false, Bool.false_and, Bool.false_eq_true, if_false, Bool.not_false, false_and,
+            Option.map_map]
+          cases scanBody cs true <;> simp [toText]
+
+/-- a well-formed STRING literal: opening quote, body scanned to exactly the closing quote -/
+def litOK : Bytes → Bool
+  | c :: cs => c == dq && scanBody cs true == some (cs, [])
+  | [] => false
+
+theorem litOK_lexable (kws : List C10.Text) (tok : Bytes) (h : litOK tok = true) :
+    C10.lexableTok kws (toText tok) = true := by
+  cases tok with
+  | nil => simp [litOK] at h
+  | cons c cs =>
+    simp only [litOK, Bool.and_eq_true, beq_iff_eq] at h
+    obtain ⟨rfl, hs⟩ := h
+    have := scanStr_toText cs false
+    simp only [Bool.not_false, hs, Option.map_some] at this
+    have hcons : toText (dq :: cs) = 34 :: toText cs := rfl
+    rw [hcons]
+    simp only [C10.lexableTok, beq_self_eq_true, if_true, this]
+    have : toText ([] : Bytes) = [] := rfl
+    rw [this]
+    exact beq_self_eq_true _
+
+theorem litOK_bytes (v : Bytes) : litOK (valueToString v) = true := by
+  rw [C12.valueToString_eq]
+  simp only [litOK, beq_self_eq_true, Bool.true_and, beq_iff_eq]
+  rw [C12.scanBody_units]
+  simp [scanBody, pre]
+
+theorem scanBody_strUnits (s : Txt) (h : noBackslash s = true) (t : Txt) :
+    scanBody (s.flatMap strUnit ++ t) true = pre (s.flatMap strUnit) (scanBody t true) := by
+  induction s with
+  | nil => cases hs : scanBody t true <;> simp [pre, hs]
+  | cons c cs ih =>
+    have hc : c ≠ bsl := by intro e; subst e; simp [noBackslash] at h
+    have hcs : noBackslash cs = true := by
+      simp only [noBackslash, List.contains_cons, Bool.not_eq_eq_eq_not, Bool.not_true, Bool.or_eq_false_iff] at h ⊢
+      exact h.2
+    simp only [List.flatMap_cons, List.append_assoc]
+    by_cases hq : c = dq
+    · subst hq
+      simp only [strUnit, if_true, List.cons_append, List.nil_append]
+      rw [C12.scanBody_escaped, ih hcs, C12.pre_pre]; rfl
+    · simp only [strUnit, hq, if_false, List.cons_append, List.nil_append]
+      rw [C12.scanBody_plain _ _ hq hc, ih hcs, C12.pre_pre]; rfl
+
+theorem litOK_str (s : Bytes) (h : noBackslash s = true) : litOK (valueToStringStr s) = true := by
+  rw [valueToStringStr_eq s h]
+  simp only [litOK, beq_self_eq_true, Bool.true_and, beq_iff_eq]
+  rw [scanBody_strUnits s h]
+  simp [scanBody, pre]
+
+theorem decBytes_plain (n : Nat) : ∀ c ∈ decBytes n, c ≠ bsl ∧ c ≠ dq := by
+  intro c hc
+  simp only [decBytes, List.mem_map] at hc
+  obtain ⟨ch, hch, rfl⟩ := hc
+  have hd := Nat.isDigit_of_mem_toDigits (by decide) (by decide) hch
+  simp only [Char.isDigit, Bool.and_eq_true, decide_eq_true_eq, ge_iff_le] at hd
+  have h1 : (48 : Nat) ≤ ch.toNat := UInt32.le_iff_toNat_le.mp hd.1
+  have h2 : ch.toNat ≤ 57 := UInt32.le_iff_toNat_le.mp hd.2
+  have hm : (ch.toNat.toUInt8).toNat = ch.toNat := by simp [Nat.toUInt8]; omega
+  constructor
+  · intro e
+    have := congrArg UInt8.toNat e
+    rw [hm] at this
+    have hb : bsl.toNat = 92 := by decide
+    omega
+  · intro e
+    have := congrArg UInt8.toNat e
+    rw [hm] at this
+    have hb : dq.toNat = 34 := by decide
+    omega
+
+theorem vts_int_eq (n : Nat) : [34] ++ decBytes n ++ [34] = valueToStringStr (decBytes n) := by
+  have hp := decBytes_plain n
+  have hnb : noBackslash (decBytes n) = true := by
+    simp only [noBackslash, Bool.not_eq_eq_eq_not, Bool.not_true, List.contains_eq_mem, decide_eq_false_iff_not]
+    intro hm; exact (hp _ hm).1 rfl
+  rw [valueToStringStr_eq _ hnb]
+  have : (decBytes n).flatMap strUnit = decBytes n := by
+    generalize decBytes n = l at hp
+    induction l with
+    | nil => rfl
+    | cons c cs ih =>
+      have := (hp c (by simp)).2
+      simp only [List.flatMap_cons, strUnit, this, if_false]
+      rw [ih fun x hx => hp x (by simp [hx])]; rfl
+  rw [this]; rfl
+
+theorem litOK_vts {v : PVal} {s : Bytes} (hw : wfScalar v = true) (h : vts v = some s) : litOK s = true := by
+  cases v with
+  | int n =>
+    simp only [vts, Option.some.injEq] at h
+    subst h
+    rw [vts_int_eq]
+    have hp := decBytes_plain n
+    exact litOK_str _ (by
+      simp only [noBackslash, Bool.not_eq_eq_eq_not, Bool.not_true, List.contains_eq_mem, decide_eq_false_iff_not]
+      intro hm; exact (hp _ hm).1 rfl)
+  | str t => simp only [vts, Option.some.injEq] at h; subst h; exact litOK_str t (wfText_noBackslash t hw)
+  | bytes t => simp only [vts, Option.some.injEq] at h; subst h; exact litOK_bytes t
+  | _ => simp [wfScalar] at hw
+
+end Lex
+
+
+/-! ### Part 7b: the generator only emits well-formed tokens -/
+
+/-- an OPTION token is one of the alternatives of the terminal; a STRING token is one well-formed literal -/
+def tokOK (isOpt : Bool) (text : Bytes) : Bool :=
+  if isOpt then Grammar.optionAlts.contains (toText text) else litOK text
+
+def tokensOK : PForest → Bool
+  | .nil => true
+  | .tok o t r => tokOK o t && tokensOK r
+  | .node _ ks r => tokensOK ks && tokensOK r
+
+theorem tk_append (x y : PForest) : tokensOK (x ++ y) = (tokensOK x && tokensOK y) := by
+  show tokensOK (PForest.append x y) = _
+  induction x with
+  | nil => simp [PForest.append, tokensOK]
+  | tok o t r ih => simp [PForest.append, tokensOK, ih, Bool.and_assoc]
+  | node l k r _ ih => simp [PForest.append, tokensOK, ih, Bool.and_assoc]
+
+theorem tk_flatten (fs : List PForest) (h : ∀ f ∈ fs, tokensOK f = true) : tokensOK (PForest.flatten fs) = true := by
+  induction fs with
+  | nil => rfl
+  | cons f fs ih => rw [flatten_cons, tk_append, h f (by simp), ih fun g hg => h g (by simp [hg])]; rfl
+
+theorem tk_strKids (args : List Bytes) (h : ∀ a ∈ args, litOK a = true) : tokensOK (strKids args) = true := by
+  induction args with
+  | nil => rfl
+  | cons a as ih =>
+    simp only [strKids, tokensOK, tokOK, Bool.false_eq_true, if_false, h a (by simp), Bool.and_true, Bool.true_and]
+    exact ih fun x hx => h x (by simp [hx])
+
+theorem tk_stmt (l : Bytes) (args : List Bytes) (h : ∀ a ∈ args, litOK a = true) : tokensOK (stmt l args) = true := by
+  simp [stmt, tokensOK, tk_strKids args h]
+
+theorem tk_block (l : Option Bytes) {kids : PForest} (h : tokensOK kids = true) : tokensOK (block l kids) = true := by
+  simp [block, tokensOK, h]
+
+theorem tk_optStmt {name s : Bytes} (hn : Grammar.optionAlts.contains (toText name) = true) (hs : litOK s = true) :
+    tokensOK (optStmt name s) = true := by
+  have hn' : toText name ∈ Grammar.optionAlts := by simpa using hn
+  simp [optStmt, tokensOK, tokOK, hn', strKids, hs]
+
+/-! data transforms -/
+
+def argOK : DArg → Bool
+  | .bytes _ => true
+  | .str s => noBackslash s
+
+def optTokOK : DOpt → Bool
+  | .bare n => (bareCls n).isSome
+  | .pair _ v => argOK v
+
+theorem litOK_darg {v : DArg} (h : argOK v = true) : litOK v.vts = true := by
+  cases v with
+  | bytes x => exact litOK_bytes x
+  | str s => exact litOK_str s h
+
+theorem tk_classify {o : DOpt} (h : optTokOK o = true) :
+    tokensOK (dtClassify o).1 = true ∧ tokensOK (dtClassify o).2 = true := by
+  cases o with
+  | bare n =>
+    simp only [optTokOK, Option.isSome_iff_exists] at h
+    obtain ⟨⟨t, l⟩, hc⟩ := h
+    rw [dtClassify_bare hc]
+    cases t <;> exact ⟨by first | rfl | exact tk_stmt _ [] (by simp), by first | rfl | exact tk_stmt _ [] (by simp)⟩
+  | pair n v =>
+    rw [dtClassify_pair_eq]
+    have := litOK_darg h
+    split
+    · exact ⟨rfl, tk_stmt _ _ (by simpa using this)⟩
+    · exact ⟨tk_stmt _ _ (by simpa using this), rfl⟩
+
+theorem tk_dtKids (ds : List DOpt) (h : ∀ o ∈ ds, optTokOK o = true) : tokensOK (dtKids ds) = true := by
+  have hs : tokensOK (dtSteps ds) = true := tk_flatten _ (by
+    intro f hf; obtain ⟨o, ho, rfl⟩ := List.mem_map.mp hf; exact (tk_classify (h o ho)).1)
+  have ht : tokensOK (dtTerms ds) = true := tk_flatten _ (by
+    intro f hf; obtain ⟨o, ho, rfl⟩ := List.mem_map.mp hf; exact (tk_classify (h o ho)).2)
+  simp [dtKids, tokensOK, hs, ht]
+
+theorem toDOpt_tokOK {t : TStep} {d : DOpt} (h : toDOpt t = some d) : optTokOK d = true := by
+  cases t with
+  | build s => cases h
+  | static s v => cases h
+  | arg a v => cases h; rfl
+  | en e =>
+    cases h
+    have := en_check e
+    unfold bareCheck at this
+    simp only [optTokOK]
+    split at this
+    · rename_i hc; simp [hc]
+    · cases this
+
+theorem recoverOpt_tokOK (r : RStep) : optTokOK (recoverOpt r) = true := by
+  cases r with
+  | append n => exact replicateX_noBackslash n
+  | prepend n => exact replicateX_noBackslash n
+  | base64 => decide +kernel
+  | print => decide +kernel
+  | netbios => decide +kernel
+  | netbiosu => decide +kernel
+  | base64url => decide +kernel
+  | mask => decide +kernel
+
+def groupsTokOK (gs : List (Option Bytes × List DOpt)) : Prop := ∀ g ∈ gs, ∀ o ∈ g.2, optTokOK o = true
+
+theorem addGroup_tokOK {key : Option Bytes} {d : DOpt} {gs : List (Option Bytes × List DOpt)} (hd : optTokOK d = true)
+    (h : groupsTokOK gs) : groupsTokOK (addGroup key d gs) := by
+  induction gs with
+  | nil => intro g hg o ho; simp [addGroup] at hg; subst hg; simp at ho; subst ho; exact hd
+  | cons x xs ih =>
+    intro g hg o ho
+    simp only [addGroup] at hg
+    split at hg
+    · simp only [List.mem_cons] at hg
+      rcases hg with rfl | hg
+      · simp only [List.mem_append, List.mem_singleton] at ho
+        rcases ho with ho | rfl
+        · exact h x (by simp) o ho
+        · exact hd
+      · exact h g (by simp [hg]) o ho
+    · simp only [List.mem_cons] at hg
+      rcases hg with hg | hg
+      · subst hg; exact h x (by simp) o ho
+      · exact ih (fun g' hg' => h g' (by simp [hg'])) g hg o ho
+
+theorem reqRun_tokOK (prog : List TStep) : ∀ a : ReqAcc, groupsTokOK a.groups → groupsTokOK (prog.foldl reqStep a).groups := by
+  induction prog with
+  | nil => intro a h; exact h
+  | cons x rest ih =>
+    intro a h
+    rw [List.foldl_cons]
+    apply ih
+    cases x with
+    | build s => exact h
+    | static s v => cases s <;> exact h
+    | en e => exact addGroup_tokOK (toDOpt_tokOK (t := .en e) rfl) h
+    | arg y v => exact addGroup_tokOK (toDOpt_tokOK (t := .arg y v) rfl) h
+
+theorem tk_requestKids (prog : List TStep) : tokensOK (requestKids prog) = true := by
+  unfold requestKids
+  simp only [tk_append, Bool.and_eq_true]
+  refine ⟨?_, ?_, ?_⟩
+  · exact tk_flatten _ (by
+      intro f hf; obtain ⟨p, _, rfl⟩ := List.mem_map.mp hf
+      exact tk_stmt _ _ (by intro a ha; simp at ha; rcases ha with rfl | rfl <;> exact litOK_bytes _))
+  · exact tk_flatten _ (by
+      intro f hf; obtain ⟨p, _, rfl⟩ := List.mem_map.mp hf
+      exact tk_stmt _ _ (by intro a ha; simp at ha; rcases ha with rfl | rfl <;> exact litOK_bytes _))
+  · have hg := reqRun_tokOK prog ⟨Option.none, [], [], []⟩ (by intro g hg; cases hg)
+    exact tk_flatten _ (by
+      intro f hf; obtain ⟨g, hgm, rfl⟩ := List.mem_map.mp hf
+      exact tk_block _ (tk_dtKids g.2 (hg g hgm)))
+
+/-! the chain -/
+
+def actTK : Act → Bool
+  | .blkConst _ _ t => noBackslash t
+  | _ => true
+
+theorem table_tk : actionTable.all (fun e => actTK e.2.2) = true := by decide +kernel
+
+theorem actionOf_tk (idx : Nat) (v : PVal) : actTK (actionOf idx v) = true := by
+  unfold actionOf
+  split
+  · rename_i x g a hf
+    have := List.all_eq_true.mp table_tk _ (List.mem_of_find?_eq_some hf)
+    split
+    · rfl
+    · exact this
+  · rfl
+
+theorem const_lits :
+    litOK (C12.valueToStringStr (b "true")) = true ∧ litOK (C12.valueToStringStr (b "false")) = true ∧
+    litOK (C12.valueToStringStr (b "NtMapViewOfSection")) = true ∧ litOK (C12.valueToStringStr (b "VirtualAllocEx")) = true := by
+  decide +kernel
+
+theorem joinComma_noBackslash (us : List Bytes) (h : ∀ u ∈ us, noBackslash u = true) : noBackslash (joinComma us) = true := by
+  have key : ∀ (l : List Bytes), (∀ u ∈ l, (92 : UInt8) ∉ u) → (92 : UInt8) ∉ joinComma l := by
+    intro l
+    induction l with
+    | nil => intro _; simp [joinComma]
+    | cons x xs ih =>
+      intro hx
+      cases xs with
+      | nil => simpa [joinComma] using hx x (by simp)
+      | cons y r =>
+        simp only [joinComma, List.mem_append, List.mem_cons, not_or]
+        refine ⟨⟨hx x (by simp), by decide, by decide, by simp⟩, ih fun u hu => hx u (by simp [hu])⟩
+  simp only [noBackslash, Bool.not_eq_eq_eq_not, Bool.not_true, List.contains_eq_mem, decide_eq_false_iff_not] at h ⊢
+  exact key us h
+
+theorem tk_injKids (l : List (Bool × Bytes)) : tokensOK (injKids l) = true := by
+  unfold injKids
+  rw [tk_append, Bool.and_eq_true]
+  constructor
+  · cases injLast true l with
+    | none => rfl
+    | some v => dsimp only; split; rfl; exact tk_stmt _ _ (by simp [litOK_bytes])
+  · cases injLast false l with
+    | none => rfl
+    | some v => dsimp only; split; rfl; exact tk_stmt _ _ (by simp [litOK_bytes])
+
+theorem tk_execItem {s : Bytes} (h : wfExecItem (some s) = true) :
+    ∃ f, execItem (some s) = .ok f ∧ tokensOK f = true := by
+  refine ⟨_, rfl, ?_⟩
+  simp only [wfExecItem, Bool.and_eq_true] at h
+  have hval := litOK_str _ (noBackslash_slice s h.1)
+  rw [tk_append, Bool.and_eq_true]
+  constructor
+  · split
+    · dsimp only
+      split
+      · exact tk_stmt _ _ (by simpa using hval)
+      · split
+        · exact tk_stmt _ _ (by simpa using hval)
+        · rfl
+    · rfl
+  · split
+    · exact tk_stmt _ [] (by simp)
+    · rfl
+
+theorem tk_execKids (l : List (Option Bytes)) (h : l.all wfExecItem = true) :
+    ∃ f, execKids l = .ok f ∧ tokensOK f = true := by
+  induction l with
+  | nil => exact ⟨.nil, rfl, rfl⟩
+  | cons i is ih =>
+    simp only [List.all_cons, Bool.and_eq_true] at h
+    obtain ⟨r, hr, hnr⟩ := ih h.2
+    cases i with
+    | none => simp [wfExecItem] at h
+    | some s =>
+      obtain ⟨f, hf, hnf⟩ := tk_execItem h.1
+      exact ⟨f ++ r, by simp only [execKids, hf, hr], by rw [tk_append, hnf, hnr]; rfl⟩
+
+structure TKInv (st : St) : Prop where
+  blocks : ∀ kb, tokensOK (st.f kb) = true
+  recov : ∀ o ∈ st.recover, optTokOK o = true
+
+theorem tk_app {st : St} (h : TKInv st) (kb : Blk) {g : PForest} (hg : tokensOK g = true) : TKInv (st.app kb g) := by
+  refine ⟨fun kb' => ?_, h.recov⟩
+  simp only [St.app]
+  split
+  · rw [tk_append, h.blocks kb', hg]; rfl
+  · exact h.blocks kb'
+
+theorem runAct_tk (uris : List (Option Bytes)) (st st' : St) (v : PVal) (a : Act) (ha : actOKb a = true)
+    (hk : actTK a = true) (hw : wfAct uris a v = true) (hi : TKInv st) (hr : runAct uris st v a = .ok st') :
+    TKInv st' := by
+  obtain ⟨ct, cf, cn, cv⟩ := const_lits
+  cases a with
+  | pass => cases hr; exact hi
+  | profOpt name =>
+    have hws : wfScalar v = true := by simpa [wfAct] using hw
+    obtain ⟨s, hs⟩ := wfScalar_vts hws
+    simp only [runAct, hs, Except.ok.injEq] at hr
+    subst hr
+    exact tk_app hi _ (tk_optStmt ha (litOK_vts hws hs))
+  | blkOpt kb l =>
+    have hws : wfScalar v = true := by simpa [wfAct] using hw
+    obtain ⟨s, hs⟩ := wfScalar_vts hws
+    simp only [runAct, hs, Except.ok.injEq] at hr
+    subst hr
+    exact tk_app hi _ (tk_stmt _ _ (by simpa using litOK_vts hws hs))
+  | blkConst kb l t =>
+    cases hr
+    exact tk_app hi _ (tk_stmt _ _ (by simpa using litOK_str t hk))
+  | uris =>
+    simp only [runAct, joinUris] at hr
+    cases hm : uris.mapM id with
+    | none => simp [hm] at hr
+    | some us =>
+      simp only [hm, Except.ok.injEq] at hr
+      subst hr
+      have hus := mapM_id_filterMap uris us hm
+      have hnb : ∀ u ∈ us, noBackslash u = true := by
+        intro u hu
+        rw [← hus] at hu
+        simp only [List.mem_filterMap, id_eq, exists_eq_right] at hu
+        simp only [wfAct, List.all_eq_true] at hw
+        exact wfText_noBackslash u (by simpa using hw (some u) hu)
+      exact tk_app hi _ (tk_stmt _ _ (by simpa using litOK_str _ (joinComma_noBackslash us hnb)))
+  | recover =>
+    cases v with
+    | recover l =>
+      cases hr
+      refine ⟨hi.blocks, ?_⟩
+      intro o ho
+      obtain ⟨r, _, rfl⟩ := List.mem_map.mp ho
+      exact recoverOpt_tokOK r
+    | _ => simp [wfAct] at hw
+  | request c =>
+    cases v with
+    | transform prog => cases hr; exact tk_app hi _ (tk_requestKids prog)
+    | _ => cases c <;> simp [wfAct] at hw
+  | perms l t f =>
+    simp only [runAct] at hr
+    split at hr
+    · cases hr; exact tk_app hi _ (tk_stmt _ _ (by simpa using ct))
+    · split at hr
+      · cases hr; exact tk_app hi _ (tk_stmt _ _ (by simpa using cf))
+      · cases hr; exact hi
+  | injT l =>
+    cases v with
+    | inj lst =>
+      simp only [runAct] at hr
+      split at hr
+      · cases hr; exact hi
+      · cases hr; exact tk_app hi _ (tk_block _ (tk_injKids lst))
+    | _ => simp [wfAct] at hw
+  | execute =>
+    cases v with
+    | execute lst =>
+      obtain ⟨f, hf, hnf⟩ := tk_execKids lst (by simpa [wfAct] using hw)
+      simp only [runAct, hf] at hr
+      split at hr
+      · cases hr; exact hi
+      · cases hr; exact tk_app hi _ (tk_block _ hnf)
+    | _ => simp [wfAct] at hw
+  | allocator =>
+    cases hr
+    refine tk_app hi _ (tk_stmt _ _ ?_)
+    intro a ha
+    simp only [List.mem_singleton] at ha
+    subst ha
+    split
+    · exact cn
+    · exact cv
+  | gate =>
+    cases v with
+    | gate lst =>
+      cases hr
+      refine tk_app hi _ (tk_block _ (tk_flatten _ ?_))
+      intro f hf
+      obtain ⟨s, _, rfl⟩ := List.mem_map.mp hf
+      exact tk_stmt _ [] (by simp)
+    | _ => simp [wfAct] at hw
+
+theorem runSettings_tk (uris : List (Option Bytes)) (cfg : List (Nat × PVal)) :
+    ∀ st st', cfg.all (wfSetting uris) = true → TKInv st → runSettings uris st cfg = .ok st' → TKInv st' := by
+  induction cfg with
+  | nil => intro st st' _ hi hr; cases hr; exact hi
+  | cons kv rest ih =>
+    intro st st' hw hi hr
+    simp only [List.all_cons, Bool.and_eq_true] at hw
+    simp only [runSettings] at hr
+    cases h1 : stepOne uris st kv with
+    | error e => simp [h1] at hr
+    | ok st1 =>
+      simp only [h1] at hr
+      exact ih st1 st' hw.2
+        (runAct_tk uris st st1 kv.2 _ (actionOf_ok _ _) (actionOf_tk _ _) (wfSetting_act hw.1) hi h1) hr
+
+theorem tk_addNonEmpty {parent kids : PForest} {l : Bytes} (hp : tokensOK parent = true) (hk : tokensOK kids = true) :
+    tokensOK (addNonEmpty parent l kids) = true := by
+  unfold addNonEmpty
+  split
+  · exact hp
+  · rw [tk_append, hp, tk_block _ hk]; rfl
+
+theorem finalize_tk {st : St} (hi : TKInv st) : tokensOK (finalize st).kids = true := by
+  unfold finalize
+  dsimp only
+  have hg1 : tokensOK (if st.recover.isEmpty then st.f .httpGet
+      else addNonEmpty (st.f .httpGet) (b "server") (block (some (b "output")) (dtKids st.recover))) = true := by
+    split
+    · exact hi.blocks .httpGet
+    · exact tk_addNonEmpty (hi.blocks .httpGet) (tk_block _ (tk_dtKids _ hi.recov))
+  exact tk_addNonEmpty (tk_addNonEmpty (tk_addNonEmpty (tk_addNonEmpty (tk_addNonEmpty
+    (tk_addNonEmpty (hi.blocks .profile) (tk_addNonEmpty hg1 (hi.blocks .getClient)))
+    (tk_addNonEmpty (hi.blocks .httpPost) (hi.blocks .postClient))) (hi.blocks .stage)) (hi.blocks .procInj))
+    (hi.blocks .dns)) (hi.blocks .httpBeacon)
+
+
+section Relex
+open C10 (Table Forest Parts wfParts label Tok)
+open Grammar (Item Form)
+
+/-! ### Part 8: the regenerated text lexes back to the printed tokens -/
+
+/-- all `(terminal, text)` leaves of a forest -/
+def fLeaves : Forest → List (Nat × C10.Text)
+  | .nil => []
+  | .leaf t s r => (t, s) :: fLeaves r
+  | .node _ ks r => fLeaves ks ++ fLeaves r
+
+/-- all node labels of a forest, at any depth -/
+def fLabels : Forest → List Nat
+  | .nil => []
+  | .leaf _ _ r => fLabels r
+  | .node l ks r => l :: (fLabels ks ++ fLabels r)
+
+/-- where a token of a derivation comes from: a keyword of the production itself, a keyword of a production used for a
+node of the tree, or a leaf of the tree -/
+def TokFrom (G : Table) (is : List Item) (ks : Forest) (tok : Tok) : Prop :=
+  (∃ k, tok = .kw k ∧ (k ∈ C10.kwSeq is ∨ ∃ g, G.has g = true ∧ label g ∈ fLabels ks ∧ k ∈ C10.kwSeq g.items)) ∨
+  (∃ t s, tok = .named t s ∧ (t, s) ∈ fLeaves ks)
+
+theorem TokFrom.mono_items {G : Table} {is is' : List Item} {ks : Forest} {tok : Tok}
+    (h : TokFrom G is ks tok) (hk : ∀ k ∈ C10.kwSeq is, k ∈ C10.kwSeq is') : TokFrom G is' ks tok := by
+  rcases h with ⟨k, rfl, h | h⟩ | h
+  · exact .inl ⟨k, rfl, .inl (hk k h)⟩
+  · exact .inl ⟨k, rfl, .inr h⟩
+  · exact .inr h
+
+theorem yield_from {G : Table} (p : Parts) : ∀ (is : List Item), wfParts G is p = true →
+    ∀ tok ∈ p.yield, TokFrom G is p.kids tok := by
+  induction p with
+  | done => intro is _ tok h; simp [Parts.yield] at h
+  | kw k r ih =>
+    intro is h tok ht
+    cases is with
+    | nil => simp [wfParts] at h
+    | cons i is =>
+      cases i <;> simp only [wfParts, Bool.and_eq_true, beq_iff_eq, Bool.false_eq_true] at h
+      obtain ⟨rfl, hr⟩ := h
+      simp only [Parts.yield, List.mem_cons] at ht
+      rcases ht with rfl | ht
+      · exact .inl ⟨_, rfl, .inl (by simp [C10.kwSeq])⟩
+      · exact (ih is hr tok ht).mono_items (by intro k hk; simp [C10.kwSeq, hk])
+  | tok t s r ih =>
+    intro is h tk ht
+    cases is with
+    | nil => simp [wfParts] at h
+    | cons i is =>
+      cases i <;> simp only [wfParts, Bool.and_eq_true, beq_iff_eq, Bool.false_eq_true] at h
+      obtain ⟨rfl, hr⟩ := h
+      simp only [Parts.yield, List.mem_cons] at ht
+      rcases ht with rfl | ht
+      · exact .inr ⟨_, _, rfl, by simp [Parts.kids, fLeaves]⟩
+      · rcases ih is hr tk ht with ⟨k, rfl, h1 | ⟨g, hg, hl, hk⟩⟩ | ⟨t', s', rfl, hm⟩
+        · exact .inl ⟨k, rfl, .inl (by simpa [C10.kwSeq] using h1)⟩
+        · exact .inl ⟨k, rfl, .inr ⟨g, hg, by simpa [Parts.kids, fLabels] using hl, hk⟩⟩
+        · exact .inr ⟨t', s', rfl, by simp [Parts.kids, fLeaves, hm]⟩
+  | sub f b r ihb ihr =>
+    intro is h tk ht
+    have key : ∀ (is' : List Item), wfParts G f.items b = true → G.has f = true → wfParts G is' r = true →
+        (∀ k ∈ C10.kwSeq is', k ∈ C10.kwSeq is) → TokFrom G is (Parts.sub f b r).kids tk := by
+      intro is' hb hf hr hsub
+      simp only [Parts.yield, List.mem_append] at ht
+      rcases ht with ht | ht
+      · rcases ihb f.items hb tk ht with ⟨k, rfl, h1 | ⟨g, hg, hl, hk⟩⟩ | ⟨t', s', rfl, hm⟩
+        · exact .inl ⟨k, rfl, .inr ⟨f, hf, by simp [Parts.kids, fLabels], h1⟩⟩
+        · exact .inl ⟨k, rfl, .inr ⟨g, hg, by simp [Parts.kids, fLabels, hl], hk⟩⟩
+        · exact .inr ⟨t', s', rfl, by simp [Parts.kids, fLeaves, hm]⟩
+      · rcases ihr is' hr tk ht with ⟨k, rfl, h1 | ⟨g, hg, hl, hk⟩⟩ | ⟨t', s', rfl, hm⟩
+        · exact .inl ⟨k, rfl, .inl (hsub k h1)⟩
+        · exact .inl ⟨k, rfl, .inr ⟨g, hg, by simp [Parts.kids, fLabels, hl], hk⟩⟩
+        · exact .inr ⟨t', s', rfl, by simp [Parts.kids, fLeaves, hm]⟩
+    cases is with
+    | nil => simp [wfParts] at h
+    | cons i is =>
+      cases i <;> simp only [wfParts, Bool.and_eq_true, beq_iff_eq, Bool.false_eq_true] at h
+      · exact key is h.1.2 h.1.1.1 h.2 (by intro k hk; simpa [C10.kwSeq] using hk)
+      · exact key _ h.1.2 h.1.1.1 h.2 (by intro k hk; exact hk)
+      · exact key is h.1.2 h.1.1.1 h.2 (by intro k hk; simpa [C10.kwSeq] using hk)
+  | stop r ih =>
+    intro is h tk ht
+    cases is with
+    | nil => simp [wfParts] at h
+    | cons i is =>
+      cases i <;> simp only [wfParts, Bool.false_eq_true] at h
+      · exact (ih is h tk (by simpa [Parts.yield] using ht)).mono_items (by intro k hk; simpa [C10.kwSeq] using hk)
+      · exact (ih is h tk (by simpa [Parts.yield] using ht)).mono_items (by intro k hk; simpa [C10.kwSeq] using hk)
+
+
+end Relex
+
+section Relex2
+open C10 (Table Forest Parts wfParts label Tok)
+open Grammar (Item Form)
+
+/-! ### Part 8b: obligations on the table and the glue -/
+
+def commentL : Nat := L "comment_dns_resolver"
+
+/-- every production other than the resolver comment is written with lexable keywords only -/
+def kwFormsOK : Bool :=
+  G0.forms.all fun g => label g == commentL ||
+    (C10.kwSeq g.items).all fun k => C10.lexableTok G0.words (G0.keywords.getD k [])
+
+theorem kwForms_fact : kwFormsOK = true := by decide +kernel
+theorem optAlts_fact : Grammar.optionAlts.all (fun a => C10.lexableTok G0.words a) = true := by decide +kernel
+theorem kwClean_G0 : C10.KwClean G0.words = true := by decide +kernel
+theorem terminatedWF_G0 : C10.TerminatedWF G0 = true := by decide +kernel
+
+def rootOKb' : Bool :=
+  G0.forms.any fun f => label f == L "start" && f.origin == G0.start && blockShape f.items == some (L "value")
+theorem root_fact' : rootOKb' = true := by decide +kernel
+
+def noComment : PForest → Bool
+  | .nil => true
+  | .tok _ _ r => noComment r
+  | .node l ks r => !isComment l && noComment ks && noComment r
+
+theorem nc_append (x y : PForest) : noComment (x ++ y) = (noComment x && noComment y) := by
+  show noComment (PForest.append x y) = _
+  induction x with
+  | nil => simp [PForest.append, noComment]
+  | tok o t r ih => simp [PForest.append, noComment, ih]
+  | node l k r _ ih => simp [PForest.append, noComment, ih, Bool.and_assoc]
+
+theorem idxOf_inj {α} [BEq α] [LawfulBEq α] (l : List α) (a c : α) (h : l.idxOf a = l.idxOf c)
+    (hc : l.idxOf c < l.length) : a = c := by
+  induction l with
+  | nil => simp at hc
+  | cons x xs ih =>
+    simp only [List.idxOf_cons] at h hc
+    by_cases h1 : x == a <;> by_cases h2 : x == c
+    · exact (eq_of_beq h1).symm.trans (eq_of_beq h2)
+    · simp [h1, h2] at h
+    · simp [h1, h2] at h
+    · simp only [h1, h2, cond_false, Nat.add_right_cancel_iff] at h
+      simp only [h2, cond_false, List.length_cons, Nat.add_lt_add_iff_right] at hc
+      exact ih h hc
+
+theorem comment_found : commentL < Grammar.nameCodes.length := by decide +kernel
+
+theorem toText_inj {x y : Bytes} (h : toText x = toText y) : x = y := by
+  induction x generalizing y with
+  | nil => cases y <;> simp [toText] at h ⊢
+  | cons a as ih =>
+    cases y with
+    | nil => simp [toText] at h
+    | cons c cs =>
+      simp only [toText, List.map_cons, List.cons.injEq] at h
+      rw [UInt8.toNat_inj.mp h.1, ih (by simpa [toText] using h.2)]
+
+theorem labelId_comment {l : Option Bytes} (h : labelId l = commentL) : isComment l = true := by
+  cases l with
+  | none =>
+    have := comment_found
+    simp only [labelId] at h
+    omega
+  | some x =>
+    simp only [labelId, commentL, L] at h
+    have := idxOf_inj _ _ _ h comment_found
+    simp [isComment, toText_inj this]
+
+theorem nc_labels (f : PForest) (h : noComment f = true) : commentL ∉ fLabels f.intern := by
+  induction f with
+  | nil => simp [PForest.intern, fLabels]
+  | tok o t r ih => simpa [PForest.intern, fLabels, noComment] using ih (by simpa [noComment] using h)
+  | node l k r ihk ihr =>
+    simp only [noComment, Bool.and_eq_true, Bool.not_eq_eq_eq_not, Bool.not_true] at h
+    simp only [PForest.intern, fLabels, List.mem_cons, List.mem_append, not_or]
+    refine ⟨fun e => ?_, ihk h.1.2, ihr h.2⟩
+    have := labelId_comment e.symm
+    rw [h.1.1] at this
+    cases this
+
+theorem tk_leaves (f : PForest) (h : tokensOK f = true) :
+    ∀ ts ∈ fLeaves f.intern, C10.lexableTok G0.words ts.2 = true := by
+  induction f with
+  | nil => simp [PForest.intern, fLeaves]
+  | tok o t r ih =>
+    simp only [tokensOK, Bool.and_eq_true] at h
+    intro ts hts
+    simp only [PForest.intern, fLeaves, List.mem_cons] at hts
+    rcases hts with rfl | hts
+    · cases o
+      · simp only [tokOK, Bool.false_eq_true, if_false] at h
+        exact litOK_lexable _ _ h.1
+      · simp only [tokOK, if_true] at h
+        exact List.all_eq_true.mp optAlts_fact _ (by simpa using h.1)
+    · exact ih h.2 ts hts
+  | node l k r ihk ihr =>
+    simp only [tokensOK, Bool.and_eq_true] at h
+    intro ts hts
+    simp only [PForest.intern, fLeaves, List.mem_append] at hts
+    rcases hts with hts | hts
+    · exact ihk h.1 ts hts
+    · exact ihr h.2 ts hts
+
+/-- for a valid tree whose tokens are well formed and which has no resolver comment: the text `as_text` produces
+lexes back to exactly the tokens the Reconstructor printed -/
+theorem relex_of_valid (idc : Nat → Bool) (hidc : C10.IdcOK idc) (kids : PForest)
+    (hv : AllOf G0 (L "value") kids.intern) (htk : tokensOK kids = true) (hnc : noComment kids = true) :
+    ∃ toks, C10.printTree G0 (⟨some (b "start"), kids⟩ : PTree).intern = some toks ∧
+      (C10.asText G0 idc (⟨some (b "start"), kids⟩ : PTree).intern).bind (C10.lexProfile G0.words) =
+        some (toks.map G0.tokText) := by
+  have hr := root_fact'
+  simp only [rootOKb', List.any_eq_true, Bool.and_eq_true, beq_iff_eq] at hr
+  obtain ⟨f, hm, ⟨hl, ho⟩, hs⟩ := hr
+  have hf := C10.idsOK_has G0 ids_G0 hm
+  obtain ⟨p, hp, hk⟩ := derives_parts (derives_block hs hv)
+  let d : C10.Deriv := ⟨f, p⟩
+  have hd : d.WF G0 = true := by simp [d, C10.Deriv.WF, hf, hp]
+  have hdt : C10.toTree d = (⟨some (b "start"), kids⟩ : PTree).intern := by
+    simp only [C10.toTree, PTree.intern, d, hk]
+    congr 1
+  have hprint := print_of_deriv d hd
+  rw [hdt] at hprint
+  refine ⟨d.yield, hprint, ?_⟩
+  have hlex : ∀ t ∈ d.yield.map G0.tokText, C10.lexableTok G0.words t = true := by
+    intro t ht
+    obtain ⟨tok, htok, rfl⟩ := List.mem_map.mp ht
+    have hfrom := yield_from p f.items hp tok htok
+    rw [hk] at hfrom
+    have hkw : ∀ (g : Form) (k : Nat), G0.has g = true → label g ≠ commentL → k ∈ C10.kwSeq g.items →
+        C10.lexableTok G0.words (G0.keywords.getD k []) = true := by
+      intro g k hg hne hkk
+      have := List.all_eq_true.mp kwForms_fact g (C10.mem_of_has G0 hg)
+      simp only [Bool.or_eq_true, beq_iff_eq, List.all_eq_true] at this
+      rcases this with h1 | h1
+      · exact absurd h1 hne
+      · exact h1 k hkk
+    have hstartne : label f ≠ commentL := by rw [hl]; decide +kernel
+    rcases hfrom with ⟨k, rfl, h1 | ⟨g, hg, hlab, hkk⟩⟩ | ⟨t', s', rfl, hmem⟩
+    · exact hkw f k hf hstartne h1
+    · exact hkw g k hg (fun e => nc_labels kids hnc (e ▸ hlab)) hkk
+    · exact tk_leaves kids htk (t', s') hmem
+  have hterm := C10.yield_terminated G0 terminatedWF_G0 hd ho
+  simp only [C10.asText, hprint, Option.map_some, Option.bind_some, C10.asTextOf]
+  rw [C10.joinItems_postproc hidc]
+  exact C10.lex_postproc kwClean_G0 _ hlex hterm
+
+
+/-- the children of the root of the finished profile are valid top-level statements -/
+theorem finalize_allOf {st : St} (hi : Inv st) : AllOf G0 (L "value") (finalize st).kids.intern := by
+  obtain ⟨hget, hpost, hstage, hinj, hdns, hhb⟩ := top_facts
+  have hg1 : AllOf G0 (ctxOf .httpGet)
+      (if st.recover.isEmpty then st.f .httpGet
+        else addNonEmpty (st.f .httpGet) (b "server") (block (some (b "output")) (dtKids st.recover))).intern := by
+    split
+    · exact hi.blocks .httpGet
+    · rename_i hne
+      rcases hi.recov with he | hd
+      · simp [he] at hne
+      · exact addNonEmpty_allOf (hi.blocks .httpGet) server_fact (block_allOf server_output_fact hd)
+  have hg2 := addNonEmpty_allOf hg1 get_client_fact (hi.blocks .getClient)
+  have hp1 := addNonEmpty_allOf (hi.blocks .profile) hget hg2
+  have hpo := addNonEmpty_allOf (hi.blocks .httpPost) post_client_fact (hi.blocks .postClient)
+  have hp2 := addNonEmpty_allOf hp1 hpost hpo
+  have hp3 := addNonEmpty_allOf hp2 hstage (hi.blocks .stage)
+  have hp4 := addNonEmpty_allOf hp3 hinj (hi.blocks .procInj)
+  have hp5 := addNonEmpty_allOf hp4 hdns (hi.blocks .dns)
+  exact addNonEmpty_allOf hp5 hhb (hi.blocks .httpBeacon)
+
+end Relex2
+
+/-- the bytes a scalar value denotes: decimal digits for a number, the text, the bytes -/
+def scalarBytes : PVal → Bytes
+  | .int n => decBytes n
+  | .str s => s
+  | .bytes v => v
+  | _ => []
+
+theorem vts_decodes {v : PVal} {s : Bytes} (hw : wfScalar v = true) (h : vts v = some s) :
+    C12.stringTokenToBytes s = .ok (scalarBytes v) := by
+  cases v with
+  | int n =>
+    simp only [vts, Option.some.injEq] at h
+    subst h
+    rw [vts_int_eq]
+    have hp := decBytes_plain n
+    exact str_roundtrip _ (by
+      simp only [noBackslash, Bool.not_eq_eq_eq_not, Bool.not_true, List.contains_eq_mem, decide_eq_false_iff_not]
+      intro hm; exact (hp _ hm).1 rfl)
+  | str t => simp only [vts, Option.some.injEq] at h; subst h; exact str_roundtrip t (wfText_noBackslash t hw)
+  | bytes t => simp only [vts, Option.some.injEq] at h; subst h; exact C12.roundtrip t
+  | _ => simp [wfScalar] at hw
+
 end C13
